@@ -117,6 +117,9 @@ func (h *historyBuffer) ResetWithIndex(index uint64) {
 	h.head = 0
 	h.tail = 0
 	h.flushCount = defaultFlushCount
+	// The stored index no longer relates to the new one: a restart before the next
+	// flush would resume from it. Persist the new index right away.
+	h.persist()
 }
 
 func (h *historyBuffer) GetNextIndex() uint64 {
